@@ -201,6 +201,14 @@ fn apply(s: &str, e: &Edit, headers: &[String]) -> String {
     }
 }
 
+pub fn edit_strategy_pub() -> impl Strategy<Value = Edit> {
+    edit_strategy()
+}
+
+pub fn apply_pub(s: &str, e: &Edit, headers: &[String]) -> String {
+    apply(s, e, headers)
+}
+
 fn edit_strategy() -> impl Strategy<Value = Edit> {
     prop_oneof![
         2 => Just(Edit::None),
@@ -365,6 +373,7 @@ fn subs_for<B: Backend>(out: &mut Vec<SubCheck>) {
     let (t1, h1) = mk();
     let (t2, h2) = mk();
     out.push(SubCheck {
+        isolate: false,
         name: format!("c09.types/{}", B::NAME),
         weight: 3,
         run: Box::new(move |acc: &mut Acc| {
